@@ -11,7 +11,7 @@ ID = "C08"
 # C08_static_length, C08_prefix, C08_required, C08_free + the regenerated is_required/is_settable table)
 LEAN_TARGETS = ['OdxVerif.Props.C08']
 DRIVERS = ["drv_codec"]
-THEOREMS = ["OdxVerif.Codec." + t for t in ['C08_static_length_partial', 'C08_required_omission_fails', 'staticLen_encAll', 'encodeParams_missing']]
+THEOREMS = ["OdxVerif.Codec." + t for t in ['C08_static_length_partial', 'C08_required_omission_fails', 'C08_condensed_counterexample', 'staticLen_encAll', 'encodeParams_missing']]
 RULE = ("well-formed descriptions (harness/odxgen/gen.py: corpus, every BYTE-SIZE structure size x offset, enumerated standard-length DOPs at every "
         "bit position, condensed/plain bit masks, random composites of the full envelope) x accepted value assignments: static length of the "
         "request/response/structure, of every parameter and every nested structure against stand-alone encodings; coded_const_prefix() against "
